@@ -832,6 +832,8 @@ def run(chk):
 
     from verif import fallthrough
     fallthrough.run(chk, "C03", floor=2)
+    from verif import argorder
+    argorder.run(chk, "C03", floor=55)
 
     chk.assumptions += [
         "intraprocedural alias classification (verif/cow.py): a handle is followed through references, pointers, smart pointers, iterators and range-for variables; calls are judged by the callee's parameter types",
